@@ -274,6 +274,7 @@ type ValOpt struct {
 	RoundTrip   bool // interface{} holds only JSON-native dynamic types; lossless choices only
 	Long        bool
 	HTMLFree    bool // RawMessage/Number content without HTML characters
+	BadNumbers  bool // json.Number may hold text that is not a JSON number (encoders must refuse it)
 }
 
 var intEdges = []int64{0, 1, -1, 2, 10, 100, 127, 128, -128, -129, 255, 256, 32767, 32768, -32768, 65535, 65536, 1<<31 - 1, 1 << 31, -(1 << 31), 1<<32 - 1, 1 << 32, 1<<53 - 1, 1 << 53, 1<<53 + 1, math.MaxInt64, math.MinInt64, 999999999999999999, -1000000000000000000}
@@ -402,6 +403,10 @@ func valueAt(t *rapid.T, ty reflect.Type, o ValOpt, depth int) reflect.Value {
 	// special named types first
 	switch ty {
 	case tNumber:
+		if o.BadNumbers && rapid.IntRange(0, 5).Draw(t, "badnumber") == 0 {
+			v.SetString(NearNumber(t))
+			return v
+		}
 		v.SetString(NumberLit(t, NumOpt{}))
 		return v
 	case tRaw:
